@@ -164,6 +164,17 @@ def gen_world(r, anp=False, big=False, pods=True, multi_kind=True):
     if r.random() < 0.25 and W['workloads']:
         cover_bias(r, W)
 
+    # label-less bias: a workload without any label facing a rule whose selector only excludes (NotIn / DoesNotExist): it is selected
+    if W['workloads'] and r.random() < 0.15:
+        w = r.choice(W['workloads'])
+        w['labels'] = {}
+        tgt = r.choice(W['workloads'])
+        ex = r.choice([[{'key': 'app', 'operator': 'NotIn', 'values': ['zz']}], [{'key': 'zone', 'operator': 'DoesNotExist'}],
+                       [{'key': 'app', 'operator': 'NotIn', 'values': ['zz']}, {'key': 'zone', 'operator': 'DoesNotExist'}]])
+        d_ = r.choice(['ingress', 'egress'])
+        W['netpols'].append({'ns': tgt['ns'], 'name': 'npnolabels', 'podSelector': {}, 'policyTypes': ['Ingress' if d_ == 'ingress' else 'Egress'],
+                             d_: [{'from' if d_ == 'ingress' else 'to': [{'namespaceSelector': {}, 'podSelector': {'matchExpressions': ex}}],
+                                   'ports': [{'protocol': 'TCP', 'port': r.choice(PORTS)}]}]})
     # many-ranges bias: one protocol with four separate ranges towards everybody (printed as a list of more than two items)
     if W['workloads'] and r.random() < 0.2:
         w = r.choice(W['workloads'])
@@ -359,6 +370,8 @@ def _cports(ports):
         c = {'containerPort': p['port'], 'protocol': p['proto']}
         if p['name']:
             c['name'] = p['name']
+            if p['port'] % 2 == 0 and p['port'] <= 55535:
+                c['hostPort'] = p['port'] + 10000       # a named port stands for the container port, whatever the host port
         cps.append(c)
     return cps
 
